@@ -526,7 +526,8 @@ def int_case(name, vals, form, acc):
         if clob:
             key = "C14/int/%s/operand-clobbered/%s" % (spec.key, bname)
             acc.violation(key, "%s changed operand #%d from %s to %s"
-                          % (call, clob[0][0], short(clob[0][1], 40), short(clob[0][2], 40)), case, size=_size(vals))
+                          % (call, clob[0][0], short(clob[0][1], 40), short(clob[0][2], 40)), case,
+                          script=_clobber_script(spec, vals, bname), size=_size(vals))
             keys.append(key)
     return keys
 
@@ -538,6 +539,18 @@ def _lit(v):
     if isinstance(v, int) and not isinstance(v, bool) and abs(v) >= 10 ** 12:
         return hex(v)
     return repr(v)
+
+
+def _clobber_script(spec, vals, bname):
+    if spec.name != "_mult_modulo_bytes":
+        return None
+    cls = _BK[bname]
+    return ("# stand-alone reproduction (needs only pycryptodome)\n"
+            "from Crypto.Math._%s import %s as K\n"
+            "t1, t2, m = K(%s), K(%s), K(%s)\n"
+            "print('result', K._mult_modulo_bytes(t1, t2, m).hex())\n"
+            "print('operands afterwards', int(t1), int(t2), '(were %s, %s)')\n"
+            % (cls, cls, _lit(vals[0]), _lit(vals[1]), _lit(vals[2]), _lit(vals[0]), _lit(vals[1])))
 
 
 def _script(spec, vals, form, bname, exp):
